@@ -188,9 +188,25 @@ def case_opb_constraint(ctx, L, rseed, count):
         deg = r.randint(-6, 4 * L + 2) if r.random() < 0.8 else r.randint(-30, 40)
         con = terms + [op, deg]
         F = OPB()
-        if not call_builder(ctx, "OPB.add_constraint", F, F.add_constraint, list(con)):
+        # one call in three gets a constraint already in normal form (positive coefficients, >= or ==), as a list the
+        # caller keeps and goes on editing afterwards
+        if r.random() < 0.34:
+            terms = [(abs(c), l) for c, l in terms]
+            op = r.choice([">=", "=="])
+            con = terms + [op, deg]
+        mine = list(con)
+        if not call_builder(ctx, "OPB.add_constraint", F, F.add_constraint, mine):
             continue
         ctx.count("opb_builder_calls")
+        before = [list(c) for c in F]
+        mine[-1] = deg + 1 if isinstance(deg, int) else deg         # the caller reuses its list for the next constraint
+        mine[-2] = "==" if op != "==" else ">="
+        mine.insert(0, (5, 1))
+        ctx.count("argument_lists_edited_after_the_call")
+        if [list(c) for c in F] != before:
+            ctx.violation("OPB.add_constraint:formula-follows-the-callers-list", "after add_constraint(%r) the caller edited its own list and "
+                          "the stored constraint changed from %r to %r" % (con, before, [list(c) for c in F]))
+            continue
         pred = lambda a: tt.naive_pb_holds(a, terms, op, deg)
         bad = [c for c in F if any(co <= 0 for co, _ in c[:-2]) or c[-2] not in (">=", "==")]
         if bad:
